@@ -955,7 +955,7 @@ func genProbe(r *hx.Rand) probeInput {
 func gen(r *hx.Rand, tier string) []json.RawMessage {
 	nCanon, nMut, nTamper, nProbe := 24, 2, 2, 300
 	if tier == "thorough" {
-		nCanon, nMut, nTamper, nProbe = 300, 15, 12, 5000
+		nCanon, nMut, nTamper, nProbe = 200, 12, 10, 3500
 	}
 	var out []json.RawMessage
 	addSim := func(s simInput) { out = append(out, hx.J(input{Sim: &s})) }
